@@ -114,7 +114,10 @@ def intrinsics(C, extract_fn, into_fn, from_py, from_core):
     I["pyo3::types::any::PyAnyMethods::is_none"] = lambda ip, n, a: d(a[0]).kind == "none"
     I["pyo3::types::list::PyListMethods::len"] = lambda ip, n, a: len(d(a[0]).v)
     I["pyo3::types::list::PyListMethods::iter"] = lambda ip, n, a: M.IterV(list(d(a[0]).v))
-    I["core::f64::<impl f64>::is_finite"] = lambda ip, n, a: d(a[0]).props.get("fclass") == "finite"
+    # float classes: finite (normal, non-zero), zero, subnormal, nan, inf, -inf
+    I["core::f64::<impl f64>::is_finite"] = lambda ip, n, a: d(a[0]).props.get("fclass") in ("finite", "zero", "subnormal")
+    I["core::f64::<impl f64>::is_normal"] = lambda ip, n, a: d(a[0]).props.get("fclass") == "finite"
+    I["core::f64::<impl f64>::is_subnormal"] = lambda ip, n, a: d(a[0]).props.get("fclass") == "subnormal"
     I["core::f64::<impl f64>::is_nan"] = lambda ip, n, a: d(a[0]).props.get("fclass") == "nan"
     I["core::f64::<impl f64>::is_infinite"] = lambda ip, n, a: d(a[0]).props.get("fclass") in ("inf", "-inf")
     I["pyo3::exceptions::PyValueError::new_err"] = lambda ip, n, a: PyErrV("ValueError")
@@ -191,6 +194,9 @@ def py_objects():
         ("int i64::MIN-1", i(I64_MIN - 1), {"Err", "Float64:approx"}),
         ("int 2**1024", i(F64_MAX_INT), {"Err"}),
         ("float finite", PyObj("float", "finite"), {"Float64:finite"}),
+        ("float 0.0 / -0.0", PyObj("float", "zero"), {"Float64:zero"}),
+        ("float subnormal (5e-324)", PyObj("float", "subnormal"), {"Float64:subnormal"}),
+        ("[0.0, 1.5]", PyObj("list", [PyObj("float", "zero"), PyObj("float", "finite")]), {"List[Float64:zero,Float64:finite]"}),
         ("float nan", PyObj("float", "nan"), {"Err"}),
         ("float +inf", PyObj("float", "inf"), {"Err"}),
         ("float -inf", PyObj("float", "-inf"), {"Err"}),
